@@ -68,4 +68,38 @@ example : (parse " ( x = 0x10 ) * 2 ".toList).toOption =
     Spec.parseText " ( x = 0x10 ) * 2 ".toList = some (.bin .Multiply (.bin .Assign (.var ['x']) (.num 16)) (.num 2)) := by
   decide +kernel
 
+/-- ☆ the same for texts with non-ASCII identifiers (`W`/`V` lines, where the tree comes from the harness because
+    the Spec's lexer is ASCII C): whatever `char::is_alphanumeric` accepts (`extra` arbitrary), if the code's
+    parser model builds the vector of the tree `e`, then `eval_with_config` returns exactly the Spec's value of
+    `e` — identifiers such as `é`, `変数`, `٣` are variables like any other. -/
+theorem checked_tree_gets_its_C_value_unicode (extra : List Char) (src : List Char) (e : Spec.Expr) (env : Env)
+    (hp : parseU extra src = .ok (rpn e)) (hs : Spec.inScope e = true) (hl : litsInRange e) :
+    (match Spec.evalExact e env with
+      | some (v, env') => evalStrU extra src env = .value v env'
+      | none => ∃ err, evalStrU extra src env = .evalError err) ∧
+    evalStrPortableU extra src env = if Spec.hasIncDec e then none else some (evalStrU extra src env) := by
+  have hm := model_computes_C_value e env hs hl
+  constructor
+  · unfold evalStrU
+    rw [hp]
+    simp only
+    cases hx : Spec.evalExact e env with
+    | none =>
+      rw [hx] at hm
+      obtain ⟨err, he⟩ := hm
+      exact ⟨err, by rw [he]; rfl⟩
+    | some p =>
+      obtain ⟨v, env'⟩ := p
+      rw [hx] at hm
+      simp only at hm ⊢
+      rw [hm]; rfl
+  · unfold evalStrPortableU evalStrU
+    rw [hp]
+    simp only [portable_rejects_exactly_incdec]
+
+example : (parseU ['é'] "é += 2".toList).toOption = some (rpn (.bin .AddAssign (.var ['é']) (.num 2))) ∧
+    evalStrU ['é'] "é += 2".toList [(['é'], ['5'])] = .value 7 [(['é'], ['7'])] ∧
+    Spec.evalExact (.bin .AddAssign (.var ['é']) (.num 2)) [(['é'], ['5'])] = some (7, [(['é'], ['7'])]) := by
+  decide +kernel
+
 end YashModel.Arith
